@@ -88,6 +88,12 @@ structure Policy where
   start : Int := 0
   deriving Repr, Inhabited
 
+/-- `ReleasePolicy.closed_loop(concurrency, num_invocations, start)`: the only
+constructor with a guard. -/
+def mkClosedLoop (conc n start : Int) : Except String Policy :=
+  if conc = 0 ∨ n = 0 then .error "RuntimeError"
+  else .ok { kind := .closedLoop, n := n, conc := conc, start := start }
+
 /-- The random draws one call of `get_release_times` consumes. -/
 inductive Draws where
   | none
